@@ -902,6 +902,10 @@ struct LsmCommitEnv {
 
 	/// Manages background tasks like flushing and compaction
 	task_manager: Option<Arc<TaskManager>>,
+
+	/// WAL segment that received each batch still between `write` and `apply`
+	/// (keyed by the batch's starting sequence number).
+	batch_wal: parking_lot::Mutex<std::collections::HashMap<u64, u64>>,
 }
 
 impl LsmCommitEnv {
@@ -910,7 +914,38 @@ impl LsmCommitEnv {
 		Ok(Self {
 			core,
 			task_manager: Some(task_manager),
+			batch_wal: parking_lot::Mutex::new(std::collections::HashMap::new()),
 		})
+	}
+}
+
+impl LsmCommitEnv {
+	/// A memtable is flushed together with "its" WAL segment: once the memtable is on
+	/// disk, every older segment is deleted. If the memtable (and WAL) were rotated after
+	/// this batch was logged, the batch is about to land in a memtable paired with a
+	/// NEWER segment than the one holding its record, and flushing the older memtable
+	/// would delete the only durable copy of an acknowledged commit. Log the batch again
+	/// in the segment paired with the memtable that receives it (replay is idempotent:
+	/// entries carry their sequence numbers). Called with the memtable read lock held,
+	/// which excludes a concurrent rotation.
+	fn relog_if_rotated(
+		&self,
+		batch: &Batch,
+		written_to: Option<u64>,
+		active_memtable: &MemTable,
+	) -> Result<()> {
+		let Some(written_to) = written_to else {
+			return Ok(());
+		};
+		if active_memtable.get_wal_number() <= written_to {
+			return Ok(());
+		}
+		let enc_bytes = batch.encode()?;
+		let mut wal_guard = self.core.wal.write();
+		wal_guard.append(&enc_bytes)?;
+		// The original record may have been written with sync; keep that guarantee.
+		wal_guard.sync()?;
+		Ok(())
 	}
 }
 
@@ -935,6 +970,13 @@ impl CommitEnv for LsmCommitEnv {
 			processed_batch.add_record(entry.kind, entry.key.clone(), encoded_value, timestamp)?;
 		}
 
+		// A batch that cannot fit even an empty memtable can never be applied; refuse it
+		// BEFORE it is logged, otherwise the commit fails after its record is in the WAL
+		// and every later recovery fails on that record.
+		if MemTable::arena_upper_bound(&processed_batch) > self.core.opts.max_memtable_size {
+			return Err(Error::BatchTooLarge);
+		}
+
 		// Write to WAL for durability
 		let enc_bytes = processed_batch.encode()?;
 		let mut wal_guard = self.core.wal.write();
@@ -942,16 +984,23 @@ impl CommitEnv for LsmCommitEnv {
 		if sync {
 			wal_guard.sync()?;
 		}
+		let wal_number = wal_guard.get_active_log_number();
 		drop(wal_guard);
+		self.batch_wal.lock().insert(seq_num, wal_number);
 
 		Ok(processed_batch)
 	}
 
 	/// Apply batch to memtable with retry on arena full.
 	fn apply(&self, batch: &Batch) -> Result<()> {
+		// The WAL segment holding this batch's record (None for callers that did not go
+		// through `write`).
+		let written_to = self.batch_wal.lock().remove(&batch.starting_seq_num);
+
 		// Try to add to current memtable
 		let result = {
 			let active_memtable = self.core.active_memtable.read()?;
+			self.relog_if_rotated(batch, written_to, &active_memtable)?;
 			active_memtable.add(batch)
 		};
 
@@ -970,6 +1019,7 @@ impl CommitEnv for LsmCommitEnv {
 
 				// Retry on new memtable - must succeed
 				let active_memtable = self.core.active_memtable.read()?;
+				self.relog_if_rotated(batch, written_to, &active_memtable)?;
 				active_memtable.add(batch)
 			}
 			Err(e) => Err(e),
